@@ -370,6 +370,27 @@ func (p *Transformer) transformFunc(m llvm.Module, fn llvm.Value) bool {
 	for i, attr := range attrs {
 		nfn.AddAttributeAtIndex(i, attr)
 	}
+	// carry the signext/zeroext attributes of scalar parameters over to their new positions
+	newIdx := 0
+	if info.Return.Kind == AttrPointer {
+		newIdx = 1
+	}
+	for i, ti := range info.Params {
+		switch ti.Kind {
+		case AttrVoid:
+		case AttrWidthType2:
+			newIdx += 2
+		case AttrExtract:
+			newIdx += len(ti.Type.StructElementTypes())
+		default:
+			newIdx++
+			for _, name := range []string{"signext", "zeroext"} {
+				if a := fn.GetEnumAttributeAtIndex(i+1, llvm.AttributeKindID(name)); !a.IsNil() {
+					nfn.AddAttributeAtIndex(newIdx, a)
+				}
+			}
+		}
+	}
 	nfn.SetLinkage(fn.Linkage())
 	nfn.SetFunctionCallConv(fn.FunctionCallConv())
 	for _, attr := range fn.GetFunctionAttributes() {
